@@ -37,8 +37,22 @@ def seeded():
         caught += 1 if c.get("caught") else 0
         verdict = "**VIOLATION**" if c.get("check_exit") == 1 else ("no verdict" if c.get("check_exit") == 2 else "missed")
         rows.append(f"| {d} | {short(m.get('site', ''), 60)} | {short(m.get('summary', ''), 150)} | {verdict} | {rule_of(c.get('check_lines'))} |")
-    head = (f"{total} changes are kept (waves 1, 3, 4, 5 and 8 of two per property, every property by a different agent in every wave); **{caught} are reported as VIOLATION** by the check of their property, "
-            f"{total - caught} are not reported (no verdict: the change is noticed as a shape the rule cannot judge; or missed).\n\n"
+    waves = {}
+    for d in sorted(os.listdir(os.path.join(HERE, "seeded"))):
+        mp = os.path.join(HERE, "seeded", d, "meta.json")
+        if os.path.exists(mp):
+            m = json.load(open(mp))
+            w = str(m.get("wave", "1"))
+            c = m.get("confirmed", {})
+            t = waves.setdefault(w, [0, 0, 0])
+            t[0] += 1
+            t[1] += 1 if c.get("caught") else 0
+            t[2] += 1 if str(m.get("blind_check_exit", "")) == "1" else 0
+    per_wave = "; ".join(f"wave {w}: {t[1]}/{t[0]}" + (f" (blind: {t[2]})" if t[2] else "") for w, t in sorted(waves.items(), key=lambda kv: (len(kv[0]), kv[0])))
+    head = (f"{total} changes are kept (two per property and wave, every property by a different agent in every wave; the breaking waves are 1, 3, 4, 5, 8, 9, 10, 12, 14 and 15); "
+            f"**{caught} are reported as VIOLATION** by the check of their property, "
+            f"{total - caught} are not reported (no verdict: the change is noticed as a shape the rule cannot judge; or missed). Reported / kept per wave on the current checks"
+            f" (in brackets: reported at first sight, before any rule was built from the wave): {per_wave}.\n\n"
             "| seed | site | what it breaks | check of its property | rule |\n|---|---|---|---|---|\n")
     return head + "\n".join(rows)
 
